@@ -694,10 +694,10 @@ def c_lookup_group(ctx):
     text = rewrite(fn, [
         ('C: member function -> function over the flattened arrays (members become parameters), result_t -> two out-parameters',
          r'^  template <class TM>\n  typename trie<TM>::result_t trie<TM>::getLongest\(const char \*c,\s*const int length\) const \{',
-         'void trie_getLongest(const bool isFrozen, const int nodeCount, const int baseNodeCount,\n'
+         'void trie_getLongest(const int rootValueIndex, const bool isFrozen, const int nodeCount, const int baseNodeCount,\n'
          '                     const char *chars, const int *offsets, const int *leafCount, const int *valueIndices,\n'
          '                     const char *c, const int length, int *out_length, int *out_valueIndex)\n'
-         '__CPROVER_requires(isFrozen)\n'
+         '__CPROVER_requires(isFrozen && -1 <= rootValueIndex)\n'
          '__CPROVER_requires(0 <= nodeCount && nodeCount <= %d && 0 <= baseNodeCount && baseNodeCount <= nodeCount)\n'
          '__CPROVER_requires(__CPROVER_is_fresh(chars, nodeCount + 1) && __CPROVER_is_fresh(offsets, sizeof(int) * (nodeCount + 1)))\n'
          '__CPROVER_requires(__CPROVER_is_fresh(leafCount, sizeof(int) * (nodeCount + 1)) && __CPROVER_is_fresh(valueIndices, sizeof(int) * (nodeCount + 1)))\n'
@@ -707,8 +707,10 @@ def c_lookup_group(ctx):
          '__CPROVER_requires(0 <= length && __CPROVER_is_fresh(c, length))\n'
          '__CPROVER_requires(__CPROVER_is_fresh(out_length, sizeof(int)) && __CPROVER_is_fresh(out_valueIndex, sizeof(int)))\n'
          '__CPROVER_assigns(*out_length, *out_valueIndex)\n'
-         '__CPROVER_ensures((*out_length == 0 && *out_valueIndex == -1) || (1 <= *out_length && *out_length <= length && 0 <= *out_valueIndex))\n'
-         '{' % (MAXN, wf), 1),
+         '__CPROVER_ensures((*out_length == 0 && *out_valueIndex == -1) || (0 <= *out_length && *out_length <= length && 0 <= *out_valueIndex))\n'
+         '{\n'
+         '    /* the only member of `root` a lookup may read (the value of the empty key) */\n'
+         '    const struct { int valueIndex; } root = { rootValueIndex };' % (MAXN, wf), 1),
         ('C: the unfrozen branch delegates to trieGetLongest (C++ groups); unreachable under the precondition isFrozen',
          r'return trieGetLongest\(c, length\);', '{ __CPROVER_assert(0, "frozen lookup: unfrozen branch not taken"); return; }', 1),
         ('C: result_t(this, retLength, retValueIndex) -> out-parameters',
@@ -720,14 +722,14 @@ def c_lookup_group(ctx):
              '__CPROVER_loop_invariant(0 <= i && i <= length)\n'
              '__CPROVER_loop_invariant(__CPROVER_same_object(c, cStart) && __CPROVER_POINTER_OFFSET(c) == __CPROVER_POINTER_OFFSET(cStart) + i)\n'
              '__CPROVER_loop_invariant(0 <= offset && 0 <= count && offset <= nodeCount - count)\n'
-             '__CPROVER_loop_invariant((retLength == 0 && retValueIndex == -1) || (1 <= retLength && retLength <= i && 0 <= retValueIndex))\n'
+             '__CPROVER_loop_invariant(-1 <= retValueIndex && 0 <= retLength && retLength <= i && (retLength == 0 || 0 <= retValueIndex))\n'
              '__CPROVER_decreases(length - i)')
     inner = ('__CPROVER_assigns(start, end, found, c, retLength, retValueIndex, offset, count)\n'
              '__CPROVER_loop_invariant(0 <= count && count <= nodeCount && 0 <= start && start <= count && -1 <= end && end < count && start <= end + 1 && !found)\n'
              '__CPROVER_loop_invariant(0 <= i && i < length)\n'
              '__CPROVER_loop_invariant(__CPROVER_same_object(c, cStart) && __CPROVER_POINTER_OFFSET(c) == __CPROVER_POINTER_OFFSET(cStart) + i)\n'
              '__CPROVER_loop_invariant(0 <= offset && 0 <= count && offset <= nodeCount - count)\n'
-             '__CPROVER_loop_invariant((retLength == 0 && retValueIndex == -1) || (1 <= retLength && retLength <= i && 0 <= retValueIndex))\n'
+             '__CPROVER_loop_invariant(-1 <= retValueIndex && 0 <= retLength && retLength <= i && (retLength == 0 || 0 <= retValueIndex))\n'
              '__CPROVER_decreases(end - start + 1)')
     text, nloops = insert_loop_contracts(text, {0: outer, 1: inner}, 'trie::getLongest')
     if nloops != 2:
@@ -736,10 +738,10 @@ def c_lookup_group(ctx):
 #include <stdbool.h>
 %s
 void h_frozen_lookup(void) {
-  bool isFrozen; int nodeCount, baseNodeCount;
+  bool isFrozen; int nodeCount, baseNodeCount, rootValueIndex;
   const char *chars; const int *offsets, *leafCount, *valueIndices;
   const char *c; int length; int *out_length, *out_valueIndex;
-  trie_getLongest(isFrozen, nodeCount, baseNodeCount, chars, offsets, leafCount, valueIndices, c, length, out_length, out_valueIndex);
+  trie_getLongest(rootValueIndex, isFrozen, nodeCount, baseNodeCount, chars, offsets, leafCount, valueIndices, c, length, out_length, out_valueIndex);
 #ifdef CANARY
   __CPROVER_assert(*out_length != 5, "canary: the lookup result is reachable and unconstrained");
 #endif
@@ -769,29 +771,40 @@ def build(ctx):
              ('any_query(bool)', 1), ('model_before()', 1), ('values_before()', 1), ('p_step_node_remove()', 1), ('b_step_node_remove()', 1), ('p_init_exp_vi()', 1), ('check_model(bool)', 3), ('ref_longest()', 1), ('ref_exact()', 1), ('strlen', 1)] for i in range(n)]
     for f in ('occa::trieNode::size($constthis)', 'occa::trieNode::nodeCount($constthis)'):
         uset += ['%s.0:4' % f, '%s:%d' % (f, depth + 2)]
-    src = dict(files)
-    src['c28.cpp'] = harness(depth, qlen, False, shapes(depth), only=[e for e, m, _, _ in ENTRIES if m != 'shapes_keys'])
-    for e, mode, _, mino in ENTRIES:
-        if mode == 'shapes_keys':
-            continue
-        groups.append(Group(
-            name='trie/' + e, sources=src, entry='h_' + e, lang='cpp',
-            unwind=qlen + 2, unwindset=uset, min_obligations=mino, functions=fns,
-            canary='CANARY', canary_label='canary', strength='bounded', bound=bound, timeout=(1800 if thorough else 240),
-            defines=['VERIF_TRIE_POOL=%d' % depth], object_bits=12,
-            replay=replay_C28.replay_state))
-    # the empty key "" (a value on the root): same obligations, own groups
-    srce = dict(files)
-    srce['c28.cpp'] = harness(depth, qlen, True, shapes(depth), only=[e for e, m, _, _ in ENTRIES if m != 'shapes_keys'])
-    for e, mode, _, mino in ENTRIES:
-        if e not in ('longest_unfrozen', 'longest_frozen', 'get_has_unfrozen', 'get_has_frozen'):
-            continue
-        groups.append(Group(
-            name='emptykey/' + e, sources=srce, entry='h_' + e, lang='cpp',
-            unwind=qlen + 2, unwindset=uset, min_obligations=mino, functions=fns,
-            canary='CANARY', canary_label='canary', strength='bounded', bound=bound + ', the empty key may be stored',
-            timeout=(1800 if thorough else 240), defines=['VERIF_TRIE_POOL=%d' % depth], object_bits=12,
-            param='empty key', replay=replay_C28.replay_state))
+    # lookup groups.  The symbolic-shape entries are one run each; the one-branch-per-shape entries are one run
+    # per chunk of CHUNK shapes (25 shapes at depth 2 = one chunk; 676 at depth 3 = 8 chunks: a single run
+    # exhausts memory and CBMC's object numbering)
+    CHUNK = 85
+    allshapes = shapes(depth)
+    chunks = [allshapes[i:i + CHUNK] for i in range(0, len(allshapes), CHUNK)]
+    look = [e for e, m, _, _ in ENTRIES if m != 'shapes_keys']
+    for rootv, prefix, which, extra in [(False, 'trie/', None, ''),
+                                        (True, 'emptykey/', ('longest_unfrozen', 'longest_frozen', 'get_has_unfrozen', 'get_has_frozen'),
+                                         ', the empty key may be stored')]:
+        sym = dict(files)
+        sym['c28.cpp'] = harness(depth, qlen, rootv, [], only=[e for e, m, _, _ in ENTRIES if m == 'symbolic'])
+        per_chunk = []
+        for ch in chunks:
+            sc = dict(files)
+            sc['c28.cpp'] = harness(depth, qlen, rootv, ch, only=[e for e, m, _, _ in ENTRIES if m == 'shapes'])
+            per_chunk.append(sc)
+        for e, mode, _, mino in ENTRIES:
+            if mode == 'shapes_keys' or (which and e not in which):
+                continue
+            variants = [('', sym)] if mode == 'symbolic' else \
+                [('' if len(chunks) == 1 else '[shapes %d-%d]' % (k * CHUNK, k * CHUNK + len(ch) - 1), per_chunk[k])
+                 for k, ch in enumerate(chunks)]
+            for suffix, srcs in variants:
+                groups.append(Group(
+                    name=prefix + e + suffix, sources=srcs, entry='h_' + e, lang='cpp',
+                    unwind=qlen + 2, unwindset=uset, min_obligations=mino, functions=fns,
+                    canary='CANARY', canary_label='canary', strength='bounded', bound=bound + extra,
+                    timeout=(1800 if thorough else 240), defines=['VERIF_TRIE_POOL=%d' % depth], object_bits=12,
+                    param=('empty key ' if rootv else '') + suffix, replay=replay_C28.replay_state))
+    # the history step is checked at depth 2 in both tiers (depth 3 = 676 shapes x 14 keys x 2 operations does
+    # not fit the budget); its harness has its own shape family and bounds
+    depth, qlen = 2, 3
+    nn = 7
     # history step: one group per operation and key (shape x key are constants of a branch)
     for e in ('step_add', 'step_node_remove'):
         for kid in range(1, nn):
